@@ -24,12 +24,73 @@ import (
 type c03case struct {
 	Toks []psref.Tok `json:"toks"`
 	Text string      `json:"text"`
+	// History: several programs for consecutive Execute calls on one
+	// interpreter (replaces Toks)
+	History [][]psref.Tok `json:"history,omitempty"`
 }
 
 var cfg = psgen.Config{TypeLiteral: true}
 
 func run(toks []psref.Tok) psdiff.Result {
 	return ev.SafeRes(func() psdiff.Result { return psdiff.Run(toks, cfg) })
+}
+
+// TestP4Histories: control flow across several Execute calls on one
+// interpreter - a call that ends inside a loop or a procedure (stop, or an
+// error) must leave no trace in how the next call's exit, stop and loops
+// behave.
+func TestP4Histories(t *testing.T) {
+	rec := ev.New("C03", "histories")
+	defer rec.Finish(t)
+	rec.Rule("2-3 programs run by consecutive Execute calls on one interpreter: the first is a control-flow program that ends inside a loop body or a nested procedure - by stop, or by an error (typecheck, rangecheck, undefined name) inside repeat / for / forall / loop / exec; the next one begins with exit outside any loop (invalidexit), a loop left by exit, or stop, followed by a generated control-flow program; optionally a third generated program. Oracle: the reference interpreter run through the same history - the error name of every call (none for stop) and the final state agree; after a call that ended with an error both sides start the next call with an empty operand stack (what an implementation leaves of the failed operator's operands is not compared). Non-trivial: always; distinct by the program texts.")
+	ev.SetupRapid(6000, 200000)
+	tr := int64(5000)
+	rapid.Check(t, func(t *rapid.T) {
+		ti := func() psref.Tok { tr++; return psref.TI(tr) }
+		first, _ := psgen.Control(t, 20)
+		enders := [][]psref.Tok{
+			{psref.TP(ti(), psref.TX("stop")), psref.TX("loop")},
+			{psref.TI(3), psref.TP(psref.TI(1), psref.TS([]byte("x")), psref.TX("mul")), psref.TX("repeat")},
+			{psref.TX("["), psref.TI(1), psref.TI(2), psref.TX("]"), psref.TP(psref.TX("pop"), psref.TX("nosuchname")), psref.TX("forall")},
+			{psref.TI(0), psref.TI(1), psref.TI(5), psref.TP(psref.TS([]byte("abc")), psref.TI(7), psref.TX("get")), psref.TX("for")},
+			{psref.TP(psref.TP(psref.TX("stop")), psref.TX("exec")), psref.TX("loop")},
+			{psref.TP(psref.TP(psref.TI(1), psref.TS([]byte("x")), psref.TX("mul")), psref.TX("exec")), psref.TX("exec")},
+			{ti(), psref.TX("stop")},
+		}
+		first = append(first, enders[rapid.IntRange(0, len(enders)-1).Draw(t, "ender")]...)
+		starts := [][]psref.Tok{
+			{psref.TX("exit")},
+			{ti(), psref.TP(psref.TX("exit")), psref.TX("exec")},
+			{psref.TP(ti(), psref.TX("exit"), ti()), psref.TX("loop"), ti()},
+			{psref.TI(2), psref.TP(ti(), psref.TX("exit")), psref.TX("repeat"), ti()},
+			{ti(), psref.TX("stop"), ti()},
+			{},
+		}
+		second, _ := psgen.Control(t, 20)
+		second = append(append([]psref.Tok{}, starts[rapid.IntRange(0, len(starts)-1).Draw(t, "start")]...), second...)
+		hist := [][]psref.Tok{first, second}
+		if rapid.Bool().Draw(t, "third") {
+			third, _ := psgen.Control(t, 20)
+			hist = append(hist, third)
+		}
+		res := ev.SafeRes(func() psdiff.Result { return psdiff.RunHistory(hist, cfg) })
+		if res.Skip != "" {
+			rec.Excluded(strings.SplitN(res.Skip, ":", 2)[0])
+			return
+		}
+		rec.Eval(1)
+		var texts []string
+		for _, h := range hist {
+			texts = append(texts, psgen.Spell(h))
+		}
+		rec.NonTrivial(strings.Join(texts, "\x00"))
+		if rec.WantSample() {
+			rec.Sample(texts)
+		}
+		if res.Msg != "" {
+			rec.Fail(t, res.Msg, c03case{History: hist, Text: strings.Join(texts, " | ")})
+		}
+	})
 }
 
 func TestP1Control(t *testing.T) {
@@ -230,6 +291,12 @@ func TestReplay(t *testing.T) {
 	var c c03case
 	if err := json.Unmarshal(rc.Case, &c); err != nil {
 		t.Fatal(err)
+	}
+	if len(c.History) > 0 {
+		if res := ev.SafeRes(func() psdiff.Result { return psdiff.RunHistory(c.History, cfg) }); res.Msg != "" {
+			t.Fatalf("%s", res.Msg)
+		}
+		return
 	}
 	if res := run(c.Toks); res.Msg != "" {
 		t.Fatalf("%s", res.Msg)
